@@ -326,6 +326,78 @@ def utr3 (t : Coding) : Except Panic TF :=
     else if o = -1 then .ok (0, t.cdsStart)
     else .error .badOrient
 
+/-! ### histories of a coding transcript *and* its location chain
+
+Between two operations on the transcript a caller may change the orientation (or the start) of the
+transcript itself or of any feature above it (`g.Orient = feat.Reverse`, a contig's orientation …).
+`UTR5` / `UTR3` call `feat.BaseOrientationOf(t)` on every query, so the model keeps no orientation:
+the state carries the chain as it is now and the queries are computed from it. -/
+
+/-- heap, transcript, and the chain as it is now: the transcript as a feature (`node`: identity,
+    `Offset`, `Orient`) and `t.Loc` with its locations (`loc`) -/
+structure TcState where
+  h : Heap
+  t : Tx
+  node : Node
+  loc : Chain
+
+/-- one step: an operation on the exon set, or an assignment to a feature of the chain
+    (`k = 0`: the transcript, `k ≥ 1`: the `k`-th location above it) -/
+inductive TcOp
+  | tx (op : TxOp)
+  | chain (op : Biogo.Feat.ChainOp)
+
+def tcApply (st : TcState) : TcOp → TcState × Option Err
+  | .tx op =>
+    match txApply (st.h, st.t) op with
+    | ((h', t'), e) => ({ st with h := h', t := t' }, e)
+  | .chain op =>
+    let c := Biogo.Feat.chainApply (st.node :: st.loc) op
+    ({ st with node := c.headD st.node, loc := c.tail }, none)
+
+def tcInit (id : Nat) (node : Node) (loc : Chain) : TcState :=
+  { h := (txInit id).1, t := (txInit id).2, node, loc }
+
+def tcRun (st : TcState) (ops : List TcOp) : TcState := ops.foldl (fun st op => (tcApply st op).1) st
+
+/-- the coding transcript as `UTR5` / `CDS` / `UTR3` see it in this state -/
+def TcState.coding (st : TcState) (cdsStart cdsEnd : Int) : Coding :=
+  { node := st.node, loc := st.loc, cdsStart, cdsEnd, len := endOf (read st.h st.t.exons) }
+
+/-- what the three queries answer in this state -/
+def layout (st : TcState) (cdsStart cdsEnd : Int) : Except Panic TF × TF × Except Panic TF :=
+  (utr5 (st.coding cdsStart cdsEnd), cds (st.coding cdsStart cdsEnd), utr3 (st.coding cdsStart cdsEnd))
+
+/-! ### the memoised base orientation of seeded change C20-m5 (kept for the refutation witness only)
+
+The seeded change gives `CodingTranscript` a field that remembers the base orientation together with
+the `Loc` and `Orient` it was computed for; `UTR5` / `UTR3` call `baseOrientation()`, which walks the
+chain again only if nothing is remembered or `t.Loc` / `t.Orient` are not the remembered ones. -/
+
+structure OriMemo where
+  loc : Option Nat     -- identity of the remembered `t.Loc` (`none`: nil)
+  orient : Int         -- the remembered `t.Orient`
+  ori : Int            -- the remembered base orientation (0: nothing remembered)
+  deriving DecidableEq, Repr
+
+def OriMemo.empty : OriMemo := ⟨none, 0, 0⟩
+
+def memoBaseOrientation (m : OriMemo) (node : Node) (loc : Chain) : OriMemo × Except Panic Int :=
+  if m.ori = 0 ∨ m.loc ≠ Biogo.Feat.headId loc ∨ m.orient ≠ node.ori then
+    match Biogo.Feat.baseOrientationOf (node :: loc) with
+    | .ok (o, _) => (⟨Biogo.Feat.headId loc, node.ori, o⟩, .ok o)
+    | .error p => (m, .error p)
+  else (m, .ok m.ori)
+
+/-- `UTR5` with the memoised orientation: the memo afterwards and the answer -/
+def utr5Memo (m : OriMemo) (t : Coding) : OriMemo × Except Panic TF :=
+  match memoBaseOrientation m t.node t.loc with
+  | (m', .error p) => (m', .error p)
+  | (m', .ok o) =>
+    if o = 1 then (m', .ok (0, t.cdsStart))
+    else if o = -1 then (m', .ok (t.cdsEnd, t.len - t.cdsEnd))
+    else (m', .error .badOrient)
+
 /-! ### Gene.SetFeatures -/
 
 structure FeatIv where
